@@ -4,6 +4,7 @@
 import OpwVerif.Drv.PlanOps
 import OpwVerif.Yaml
 import OpwVerif.Urdf
+import OpwVerif.Generated.Presets
 namespace Opw.Drv
 open Opw Opw.Proto
 
@@ -227,5 +228,24 @@ def opHName : RM Res := do
       | .error _ => none : Option String)
     let m := preprocessJointName s
     pure (mkRes (r == some m) s!"preprocess_joint_name({s}): impl {r} model {m}" [])
+
+end Opw.Drv
+
+namespace Opw.Drv
+open Opw Opw.Proto
+
+/-- `preset name => K`: the hard-coded robot `name` as compiled into the library, against the table the translator
+regenerated from parameters_robots.rs on this run (`Generated/Presets.lean`); exact comparison -/
+def opPreset : RM Res := do
+  let name ← rText
+  expect "=>"
+  let k ← rKin
+  let p := k.core.p
+  match (Presets.all : List (String × Params Float)).find? (fun np => np.1 == name) with
+  | none => pure (mkRes false s!"preset {name} is not in the translated table" [])
+  | some (_, m) =>
+    let ok := bitEq p.a1 m.a1 && bitEq p.a2 m.a2 && bitEq p.b m.b && bitEq p.c1 m.c1 && bitEq p.c2 m.c2 && bitEq p.c3 m.c3 &&
+      bitEq p.c4 m.c4 && bitEqJ p.offsets m.offsets && bitEqJ p.signs m.signs && p.dof == m.dof
+    pure (mkRes ok s!"preset {name}: compiled constants differ from the table translated from the source" [])
 
 end Opw.Drv
